@@ -47,7 +47,7 @@ def main():
         bad = [c for c in checks if r[c]["rc"] != 0]
         print(k, "non-zero:", bad, flush=True)
     sh(f"git -C {EVAL} checkout -q -- .")
-    sh("/venv/bin/python harness/translate_hc.py --write; /venv/bin/python harness/translate_wiring.py --write", cwd=VROOT)
+    sh("/venv/bin/python harness/translate_all.py --write", cwd=VROOT)
 
 
 if __name__ == "__main__":
